@@ -239,7 +239,7 @@ def make_alignment(rng, cols, c0, c1, style="M", skip=None, soft=(0, 0), hard=(0
     return dict(start=cols[kept[0]][1], cigar=cig, seq=seq, kept=set(kept))
 
 
-def truth_of(ref, cols, listed, carried, aln, overhang=10):
+def truth_of(ref, cols, listed, carried, aln, overhang=10, real=None):
     """Ground truth of one alignment.  Returns dict idx -> (allele, window) for every listed variant the alignment
     fully covers and whose allele on this haplotype is defined, and the set of listed variants it touches.
       fully covered: every haplotype column of the variant's footprint is kept by the alignment;
@@ -255,9 +255,14 @@ def truth_of(ref, cols, listed, carried, aln, overhang=10):
     lo_kept, hi_kept = min(kept), max(kept)
     rlo, rhi = cols[lo_kept][1], cols[hi_kept][1]
     out, touch = {}, set()
+    real = real or {}
     for idx, (pos, r, a) in enumerate(listed):
         if a.startswith("<"):
-            continue
+            # a symbolic record has a ground truth only where the haplotype carries the real event behind it
+            # (real[idx] = the carried event, e.g. the deletion behind a <DEL> record): then allele 1
+            if idx not in real or idx not in carried:
+                continue
+            pos, r, a = real[idx]
         if rlo - 1 <= pos + len(r) and pos - 1 <= rhi:
             touch.add(idx)
         if idx in carried:
